@@ -336,11 +336,42 @@ func runProperty(repo, lib, prop, tier string) int {
 	if bounded != nil {
 		cov["bounded"] = bounded
 	}
+	// the level recorded is the one claimed in MANIFEST.json; for `other` the run explains itself
+	level := "proof"
+	if data, err := os.ReadFile(filepath.Join("/verif", "MANIFEST.json")); err == nil {
+		var mf struct {
+			Checks []struct {
+				PropertyID   string `json:"property_id"`
+				LevelClaimed struct {
+					Category string `json:"category"`
+				} `json:"level_claimed"`
+			} `json:"checks"`
+		}
+		if json.Unmarshal(data, &mf) == nil {
+			for _, c := range mf.Checks {
+				if c.PropertyID == prop && c.LevelClaimed.Category != "" {
+					level = c.LevelClaimed.Category
+				}
+			}
+		}
+	}
+	if level == "other" {
+		nb, nc := 0, 0
+		for _, b := range bounded {
+			if m, ok := b.(map[string]any); ok {
+				nb++
+				if c, ok := m["cases"].(float64); ok {
+					nc += int(c)
+				}
+			}
+		}
+		cov["explanation"] = fmt.Sprintf("two kinds of evidence in one run: (1) deductive proof of the mechanisms under contract — %d obligations generated from the current source, %d discharged by z3/cvc5 (keys obligations, discharged, functions_under_contract, trusted_base); (2) %d bounded stand-in(s), %d cases on this run, deciding the end-to-end statement of the property by exploration of the real code against an independent oracle (key bounded: bound, cases, failures).  Only (1) is proof; (2) is labelled bounded and is not counted among the obligations.", totalObl, totalDis, nb, nc)
+	}
 	ev := map[string]any{
 		"property_id": prop,
 		"tier":        tier,
 		"seed":        seed,
-		"level":       "proof",
+		"level":       level,
 		"coverage":    cov,
 		"assumptions": as,
 		"wall_s":      round3(time.Since(start).Seconds()),
